@@ -151,6 +151,9 @@ Definition o_op (cap : N) (o : ost) (op : sop) : ost :=
   | _ => o1
   end.
 
+Fixpoint nodup_b {A} (eqb : A -> A -> bool) (l : list A) : bool :=
+  match l with [] => true | x :: r => negb (existsb (eqb x) r) && nodup_b eqb r end.
+
 (* C13 on a snapshot: every want set within the cap; only peers with a view (= connected) have state *)
 Definition snap_ok13 (v : views) (s : snap) : bool :=
   match s with
@@ -159,6 +162,12 @@ Definition snap_ok13 (v : views) (s : snap) : bool :=
                          && match view_get v (fst pw) with Some _ => true | None => false end) wants
       && forallb (fun cw => forallb (fun p => match view_get v p with Some _ => true | None => false end) (snd cw)) waiting
       && (len wants <=? len v)
+      (* state proportional to the live wants (Srv_inv): a registration (c, p) exists exactly when c is in p's want set,
+         once — no second copy that a single cancel would leave behind, no registration without a want *)
+      && forallb (fun cw => nodup_b N.eqb (snd cw) && negb (match snd cw with [] => true | _ => false end)
+                            && forallb (fun p => existsb (fun pw => (fst pw =? p) && existsb (cid_eqb (fst cw)) (snd pw)) wants) (snd cw)) waiting
+      && forallb (fun pw => nodup_b cid_eqb (snd pw)
+                            && forallb (fun c => existsb (fun cw => cid_eqb (fst cw) c && existsb (N.eqb (fst pw)) (snd cw)) waiting) (snd pw)) wants
   end.
 
 Definition o_step (cap : N) (o : ost) (op : sop) (obs : step_obs) : ost :=
